@@ -254,6 +254,12 @@ inline void m02(const Edge& e, const Parsed& P) {
 	if (P.structErr) { flag(C02, "guard-structure", e, "cannot segment guard deliveries into rounds at ev %d", P.structEv); return; }
 	// (c) replacement: what is evaluated is the last request made
 	check_subject_chain(C02, e, P, false);
+	{ // a processing step consumes the request it was given: nothing stays outstanding unless the substitution limit was exhausted,
+	  // and it never evaluates more requests than the limit allows (the rest is left for the next step)
+		const int used = P.nr - first_req_round(P);
+		if (used > L) flag(C02, "processing-beyond-limit", e, "%d requests evaluated in one processing step, the substitution limit is %d", used, L);
+		if (!e.terminal && used < L && !tx_empty(e.post.req)) flag(C02, "request-outlives-processing", e, "request %d>%d is still outstanding after a processing step that used %d of %d rounds: it would be applied later although nobody asks again", e.post.req.o, e.post.req.d, used, L);
+	}
 	// (d) outcome
 	TxS W = TX_NONE; bool hasW = winner(P, W);
 	check_lifecycle_shape(C02, e, P, hasW, W);
@@ -497,6 +503,7 @@ inline void m11(const Edge& e, const Parsed& P) {
 	switch (e.op.k) {
 	case OP_REPLAY_T: if (!e.res.ret) flag(C11, "replay-returned-false", e, "replayTransition(%d)", e.op.a); if (e.post.active != e.op.a) flag(C11, "replay-activity", e, "active=%d", e.post.active); if (!(e.post.prev.d == e.op.a)) flag(C11, "replay-history", e, "previousTransition().destination=%d", e.post.prev.d); break;
 	case OP_REPLAY_E: if (e.post.active != e.op.a) flag(C11, "replay-activity", e, "active=%d", e.post.active); if (!(e.post.prev.d == e.op.a)) flag(C11, "replay-history", e, "previousTransition().destination=%d", e.post.prev.d); break;
+	case OP_LOAD: if (!tx_empty(e.post.prev) && e.post.prev.d != e.post.active) flag(C11, "history-stale-after-load", e, "after load() previousTransition().destination=%d while state %d is active: a replica fed this destination diverges", e.post.prev.d, e.post.active); break;
 	case OP_REPLAY_T_INV: if (e.res.ret) flag(C11, "replay-invalid-returned-true", e, "replayTransition(INVALID)"); if (!e.key_unchanged) flag(C11, "replay-invalid-changed-state", e, "state differs after replayTransition(INVALID): previousTransition %d>%d -> %d>%d", e.pre.prev.o, e.pre.prev.d, e.post.prev.o, e.post.prev.d); if (P.ncb) flag(C11, "replay-invalid-callbacks", e, "%d callbacks", P.ncb); break;
 	case OP_CHANGE: case OP_CHANGEW: case OP_QUERY: case OP_SAVE: case OP_ATTACH: case OP_PLAN_CHANGE: case OP_PLAN_CHANGEW: case OP_PLAN_CLEAR: case OP_PLAN_REMOVE: case OP_SUCCEED: case OP_FAIL: case OP_COPY:
 		if (e.post.prev != e.pre.prev) flag(C11, "history-changed-by-passive-call", e, "previousTransition %d>%d -> %d>%d", e.pre.prev.o, e.pre.prev.d, e.post.prev.o, e.post.prev.d); break;
